@@ -1,5 +1,6 @@
 //! `rmv` -- property-based / fuzzing verification harness for reactive-mutiny (see /verif/DESIGN.md)
 
+mod chan;
 mod driver;
 mod lin;
 mod payload;
@@ -59,7 +60,12 @@ macro_rules! part {
 fn registry() -> Vec<PartEntry> {
     use props::*;
     vec![
+        part!("C01", uni::C01Uni),
         part!("C02", containers::Rings),
+        part!("C02", uni::C02Uni),
+        part!("C03", uni::C03Multi),
+        part!("C04", uni::C04Uni),
+        part!("C04", uni::C04Multi),
         part!("C18", containers::Standalone),
     ]
 }
@@ -134,6 +140,7 @@ fn main() {
                 known: driver::load_known(&verif_dir().join("KNOWN_FINDINGS.txt")),
                 replays_out: verif_dir().join("evidence").join("replays"),
                 case_scale,
+                survey: std::env::var("VERIF_SURVEY").is_ok(),
             };
             start_watchdog(180);
             let started = Instant::now();
